@@ -2,7 +2,8 @@
    w.r.t. the trace specification, with the documented numbers (10, 255) against constants regenerated from the
    source; (2) the node budget over a whole parse: a successfully parsed document has at most
    1 + len + 256 * len * amp nodes (hence <= 256 * (len + 1) * (amp + 1)), for every input and all options;
-   without a DOCTYPE at most len + 1 nodes.
+   without a DOCTYPE at most len + 1 nodes; (3) the byte budget: the text of all Text nodes plus all attribute
+   values (text_len + value_len, BudgetBytesBuild.v) is at most len + 256 * len * amp bytes.
    Statements are pinned here (copied verbatim from the proof files by tools/pin_props.py);
    each is re-proved by `exact` and followed by Print Assumptions. *)
 From Coq Require Import Ascii String.
@@ -11,7 +12,7 @@ Import ListNotations.
 From RX Require Import Generated.
 From RX.Model Require Import Base CharClass Stream Tokenizer Doc Builder Parse Api.
 From RX.Spec Require Import Detector.
-From RX.Proofs Require Import DetectorProofs OptionsParam OptionsBuild OptionsMain OptionsDtd BudgetStream BudgetTok BudgetBuild BudgetAcct BudgetMain BudgetNoEnt.
+From RX.Proofs Require Import DetectorProofs OptionsParam OptionsBuild OptionsMain OptionsDtd BudgetStream BudgetTok BudgetBuild BudgetAcct BudgetMain BudgetNoEnt BudgetBytesBuild BudgetBytesTok BudgetBytesAcct BudgetBytesMain.
 Open Scope N_scope.
 
 (* ---- Proofs/BudgetMain.v ---- *)
@@ -34,6 +35,19 @@ Theorem C09_budget_no_entities :
   len_N (d_nodes d) <= tlen text + 1.
 Proof. exact budget_no_entities. Qed.
 Print Assumptions C09_budget_no_entities.
+
+(* ---- Proofs/BudgetBytesMain.v ---- *)
+Theorem C09_expansion_budget_bytes :
+  forall text opt d, parse text opt = Ok d ->
+  text_len text d + value_len text d <= 256 * (tlen text + 1) * (amp_count text + 1).
+Proof. exact expansion_budget_bytes. Qed.
+Print Assumptions C09_expansion_budget_bytes.
+
+Theorem C09_expansion_budget_bytes_tight :
+  forall text opt d, parse text opt = Ok d ->
+  text_len text d + value_len text d <= tlen text + 256 * tlen text * amp_count text.
+Proof. exact expansion_budget_bytes_tight. Qed.
+Print Assumptions C09_expansion_budget_bytes_tight.
 
 (* ---- Proofs/DetectorProofs.v ---- *)
 Theorem C09_enter_agrees_model :
